@@ -161,7 +161,10 @@ CLAIMS = {
              "resize / flip / copies are log entries, element-wise loops are summarised into one entry after proving "
              "that no iteration reads what an earlier one wrote) lets the bit at a symbolic position of the result "
              "be resolved and compared with the reference bit vector for every operand, size and shift distance. "
-             "set() (range-for over proxies), operator[] (growing access), == and the order of iteration are not decided.",
+             "Iteration order: forward()/reverse() of the iterator base are proved to move to the NEXT set position "
+             "(each step tests exactly the neighbouring position, continues only over a clear bit inside the set, stops "
+             "only at a set bit or the end marker) and operator++/-- of both iterator kinds step through them. set() "
+             "(range-for over proxies), operator[] (growing access) and == are not decided.",
         note="trusted base: clang front end, extractor, cv/lin.py + cv/bounds.py, the size model of std::vector<bool>, "
              "std::find/std::count semantics; shift distances < 2^62 assumed",
         technique="static analysis: relational (linear inequality) abstract interpretation, inductive loop/iterator invariants"),
